@@ -57,6 +57,13 @@ LitZ(x) == Z(x.neg, MFromDigits(x.ds, 10))     \* decimal digits, most significa
 Stuck == [t |-> "stuck"]
 TooBig == [t |-> "toobig"]
 
+(* bitwise operations on 64-bit machine integers: bit k of the result from bit k of the two's complement operands *)
+BitOp64(f(_, _), x, y) ==
+  WrapSI(FoldLeft(LAMBDA acc, k : IF f(BitTwos(x, k), BitTwos(y, k)) = 1 THEN Add(acc, Pow2Z(k)) ELSE acc, Zero,
+                  [i \in 1..64 |-> i - 1]))
+BAnd(p, q) == IF p = 1 /\ q = 1 THEN 1 ELSE 0
+BOr(p, q)  == IF p = 1 \/ q = 1 THEN 1 ELSE 0
+BXor(p, q) == IF p # q THEN 1 ELSE 0
 PrimApply(op, a) ==
   CASE op = "si.add" -> VSI(WrapSI(Add(a[1].z, a[2].z)))
     [] op = "si.sub" -> VSI(WrapSI(Sub(a[1].z, a[2].z)))
@@ -77,6 +84,9 @@ PrimApply(op, a) ==
     [] op = "bi.odd"  -> VBool(MBit(a[1].z.mag, 0) = 1)
     [] op = "bi.even" -> VBool(MBit(a[1].z.mag, 0) = 0)
     [] op = "bi.zero" -> VBool(IsZero(a[1].z))
+    [] op = "si.and" -> VSI(BitOp64(BAnd, a[1].z, a[2].z))       \* /\, \/, xor on SingleInteger
+    [] op = "si.or"  -> VSI(BitOp64(BOr, a[1].z, a[2].z))
+    [] op = "si.xor" -> VSI(BitOp64(BXor, a[1].z, a[2].z))
     [] op = "si.tobi" -> VBI(a[1].z)
     [] op = "bi.add" -> VBI(Add(a[1].z, a[2].z))
     [] op = "bi.sub" -> VBI(Sub(a[1].z, a[2].z))
